@@ -238,6 +238,27 @@ Theorem C03_generated_merge_existing_is_the_model : forall p i, NoDup (map fst p
   Gen.InternalUtil.merge_existing (fun m im => Gen.InternalUtil.merge_existing (fun _ v_new => v_new) m im) p i.
 Proof. exact Sched.MergeTie.tie_merge_existing. Qed.
 Print Assumptions C03_generated_merge_existing_is_the_model.
+(* scheduler.get_input_data itself, regenerated statement by statement on every run (Gen/InputData.v: set_data inputs, the
+   persistent memory merged under them, the due entries of the timed buffer, the pulled values - None for a missing one -,
+   the merge back into the memory), is the data plane's get_input_data *)
+From MV Require Gen.InputData Sched.DataTie.
+Theorem C03_generated_get_input_data_is_the_model : forall dt ds i step,
+  NoDup (map fst (persist (ds i))) -> (forall a m, In (a, m) (persist (ds i)) -> NoDup (map fst m)) ->
+  let d := ds i in
+  let '(inp, p', q', sd') := Gen.InputData.get_input_data (setdata d) (persist d) (buffer d) (pulled dt i) (fun src => outputs (ds src)) step in
+  Plane.get_input_data dt ds i step = (inp, dupd ds i (mkD (outputs d) q' (bcount d) p' sd')).
+Proof. exact Sched.DataTie.tie_get_input_data. Qed.
+Print Assumptions C03_generated_get_input_data_is_the_model.
+(* ... and so are the data part of scheduler.get_outputs (cache fill, then one buffer entry per pushed destination, a missing
+   attribute skipped) and scheduler.prune_dataflow_cache (time shifts of pulled connections are not negative) *)
+Theorem C03_generated_put_outputs_is_the_model : forall dt ds i ot data,
+  Gen.InputData.put_outputs (d_cache dt) (pushes dt i) ds i ot data = Plane.put_outputs dt ds i ot data.
+Proof. exact Sched.DataTie.tie_put_outputs. Qed.
+Print Assumptions C03_generated_put_outputs_is_the_model.
+Theorem C03_generated_prune_is_the_model : forall st dt s ds, (forall j g, In g (pulled dt j) -> 0 <= snd (fst g)) -> forall i,
+  Gen.InputData.prune_dataflow_cache (d_cache dt) (seq 0 (nsims st)) (pulled dt) (fun j => thd (last (s j))) ds i = Plane.prune st dt s ds i.
+Proof. exact Sched.DataTie.tie_prune. Qed.
+Print Assumptions C03_generated_prune_is_the_model.
 
 (* ---- pushed persistent data over whole runs ---- *)
 (* the slot (attribute a of j, source k): registered in the persistent memory with initial value v0, written by no pulled
